@@ -101,9 +101,9 @@ func (l *c16Life) judge(st *c16LStream, event string, rng *kit.RNG) {
 		if i == 0 {
 			// the first publish after the event decides whether the rebuilt
 			// partition still checks expected offsets
-			class = []string{"stale", "future", "stale", "equal"}[rng.Intn(4)]
+			class = []string{"stale", "future", "stale", "equal", "negative"}[rng.Intn(5)]
 		} else {
-			class = []string{"stale", "future", "equal", "equal", "any", "zero"}[rng.Intn(6)]
+			class = []string{"stale", "future", "equal", "equal", "any", "zero", "negative"}[rng.Intn(7)]
 		}
 		if (class == "stale" || class == "zero") && next == 0 {
 			class = "future"
@@ -120,6 +120,8 @@ func (l *c16Life) judge(st *c16LStream, event string, rng *kit.RNG) {
 			e = next
 		case "any":
 			e = -1
+		case "negative":
+			e = []int64{-2, -7, -1 << 40, -1 << 63}[rng.Intn(4)]
 		}
 		st.seq++
 		tag := fmt.Sprintf("%s#%d:%s:e=%d", st.name, st.seq, class, e)
@@ -360,7 +362,7 @@ func c16LifeScenario(rep *kit.Report, id int, rng *kit.RNG) {
 func TestVerifC16Lifecycle(t *testing.T) {
 	rep := kit.NewReport("C16", "lifecycle")
 	defer rep.Write()
-	rep.SetRule("real single-node servers (Raft + BoltDB + file snapshots, private NATS), 3 streams with optimistic concurrency control each (per-stream request flag; one by the server-wide setting when that is on; one with 256-byte segments); seeded program of 4..7 lifecycle events (PauseStream, PauseStream with resume-all, read-only on/off, forced Raft snapshot, stop+start on the same data dir, snapshot then restart, pause then restart); after every event 3..6 sequential conditional publishes per affected stream through apiServer.Publish with expected offset stale / 0 / future / equal / -1, the first one after the event mostly one that must be rejected; oracle = model 'next offset' (accept iff e == -1 or e == next, at offset next; otherwise INCORRECT_OFFSET) + read-back of the partition log == accepted tags in order; a publish without verdict makes the scenario inconclusive; non-trivial = scenario contained a pause resumed by a conditional publish and a restart; distinct = event text")
+	rep.SetRule("real single-node servers (Raft + BoltDB + file snapshots, private NATS), 3 streams with optimistic concurrency control each (per-stream request flag; one by the server-wide setting when that is on; one with 256-byte segments); seeded program of 4..7 lifecycle events (PauseStream, PauseStream with resume-all, read-only on/off, forced Raft snapshot, stop+start on the same data dir, snapshot then restart, pause then restart); after every event 3..6 sequential conditional publishes per affected stream through apiServer.Publish with expected offset stale / 0 / future / equal / -1 / below -1, the first one after the event mostly one that must be rejected; oracle = model 'next offset' (accept iff e == -1 or e == next, at offset next; otherwise INCORRECT_OFFSET) + read-back of the partition log == accepted tags in order; a publish without verdict makes the scenario inconclusive; non-trivial = scenario contained a pause resumed by a conditional publish and a restart; distinct = event text")
 	root := kit.NewRNG(kit.Mix(kit.Seed(), 0xC16F))
 	n := kit.Scale(8, 40)
 	rngs := make([]*kit.RNG, n)
